@@ -31,6 +31,7 @@ from placement.handlers import allocation
 from placement.handlers import inventory
 from placement.handlers import util as data_util
 from placement import microversion
+from placement.objects import consumer as consumer_obj
 from placement.objects import reshaper
 from placement.objects import resource_provider as rp_obj
 from placement.policies import reshaper as policies
@@ -116,6 +117,10 @@ def reshape(req):
         data_util.update_consumers(consumers.values(), requested_attrs)
 
         reshaper.reshape(ctx, inventory_by_rp, allocation_objects)
+        # An empty set of allocations for a consumer that did not exist yet
+        # writes nothing: do not keep the records created for such entries.
+        consumer_obj.delete_consumers_if_no_allocations(
+            ctx, [c.uuid for c in new_consumers_created])
 
     def _create_allocations():
         try:
@@ -148,12 +153,6 @@ def reshape(req):
     except exception.InvalidInventory as exc:
         raise webob.exc.HTTPConflict(
             'Unable to allocate inventory: %(error)s' % {'error': exc})
-
-    # An empty set of allocations for a consumer that did not exist yet writes
-    # nothing: do not keep the consumer records created for such entries.
-    allocation.delete_consumers(
-        [consumer for consumer in new_consumers_created
-         if not allocations[consumer.uuid]['allocations']])
 
     req.response.status = 204
     req.response.content_type = None
